@@ -236,8 +236,11 @@ class Fault(Exception):
     pass
 
 
-def _paths(root):
-    return {k: os.path.join(root, {"argparse": "argparse_mod.py", "class": "classes.py", "function": "methods.py"}[k]) for k in KINDS}
+def _paths(root, twin=False):
+    d = {k: os.path.join(root, {"argparse": "argparse_mod.py", "class": "classes.py", "function": "methods.py"}[k]) for k in KINDS}
+    if twin:
+        d["twin"] = os.path.join(root, "second_of_truth_kind.py")
+    return d
 
 
 def _digest(path):
@@ -259,23 +262,29 @@ def spelled(root, spell):
     return root
 
 
-def run_sync(root, truth, given, ctx, fault=None, via_cli=False, spell="plain"):
-    """One invocation.  Returns dict(exc, report, printed, status)."""
-    real = _paths(root)
-    paths = _paths(spelled(root, spell))      # what the command line says; `real` is where the files are
+def run_sync(root, truth, given, ctx, fault=None, via_cli=False, spell="plain", twin=False):
+    """One invocation.  Returns dict(exc, report, printed, status).  twin: a second file of the truth's kind exists."""
+    paths = _paths(spelled(root, spell), twin)      # what the command line says
+    FILES = KINDS + (("twin",) if twin else ())
     fname = "C.f" if ctx == "method" else "f"
     names = {"argparse": "set_cli_args", "class": "ConfigClass", "function": fname}
+
+    def files_of(k):     # the truth file first (the command line's first file of the truth's kind is the truth)
+        return [paths[k]] + ([paths["twin"]] if twin and k == truth and "twin" in given else [])
+
     if via_cli:
         argv = ["sync", "--truth", NS_KEY[truth]]
         for k in KINDS:
             if k in given:
-                argv += ["--" + NS_KEY[k].replace("_", "-"), paths[k], "--" + NS_KEY[k].replace("_", "-") + "-name", names[k]]
+                for fn in files_of(k):
+                    argv += ["--" + NS_KEY[k].replace("_", "-"), fn]
+                argv += ["--" + NS_KEY[k].replace("_", "-") + "-name", names[k]]
         p = subprocess.run([PY, "-m", "doctrans"] + argv, cwd=root, env=child_env(), stdout=subprocess.PIPE, stderr=subprocess.PIPE, text=True)
         paths = {k: (os.path.join(root, v) if not os.path.isabs(v) else v) for k, v in paths.items()}
         out = p.stdout
         exc = "none" if p.returncode == 0 and "Traceback" not in p.stderr else ("exit%d" % p.returncode if "Traceback" not in p.stderr else
                                                                                 p.stderr.strip().splitlines()[-1].split(":")[0])
-        report = {k: "none" for k in KINDS}
+        report = {k: "none" for k in FILES}
     else:
         import_doctrans()
         import doctrans.conformance as conformance
@@ -283,7 +292,7 @@ def run_sync(root, truth, given, ctx, fault=None, via_cli=False, spell="plain"):
 
         args = Namespace(truth=NS_KEY[truth])
         for k in KINDS:
-            setattr(args, NS_KEY[k] + ("es" if k == "class" else "s"), [paths[k]] if k in given else None)
+            setattr(args, NS_KEY[k] + ("es" if k == "class" else "s"), files_of(k) if k in given else None)
             setattr(args, NS_KEY[k] + "_names", [names[k]] if k in given else None)
         buf = io.StringIO()
         exc, eff = "none", None
@@ -306,17 +315,17 @@ def run_sync(root, truth, given, ctx, fault=None, via_cli=False, spell="plain"):
             os.chdir(cwd)
         paths = {k: (os.path.join(root, v) if not os.path.isabs(v) else v) for k, v in paths.items()}
         out = buf.getvalue()
-        report = {k: "none" for k in KINDS}
+        report = {k: "none" for k in FILES}
         if eff is not None:
-            for k in KINDS:
+            for k in FILES:
                 rp = os.path.realpath(paths[k])
                 if rp in eff:
                     report[k] = "true" if eff[rp] else "false"
-    printed = {k: "none" for k in KINDS}
+    printed = {k: "none" for k in FILES}
     for line in out.splitlines():
         parts = line.split("\t")
         if len(parts) == 2 and parts[0] in ("modified", "unchanged"):
-            for k in KINDS:
+            for k in FILES:
                 if os.path.realpath(parts[1]) == os.path.realpath(paths[k]):
                     printed[k] = parts[0]
     return {"exc": exc, "report": report, "printed": printed}
@@ -395,39 +404,43 @@ def run_history(h):
 def _run_history(h):
     root = tempfile.mkdtemp(prefix="sync-")
     try:
-        paths = _paths(root)
+        twin = "twin" in h["init"]
+        paths = _paths(root, twin)
         ctx = h["ctx"]
-        for k in KINDS:
-            text = build_file(k, h["init"][k], ctx)
+        FILES = KINDS + (("twin",) if twin else ())
+        kind_of = {k: k for k in KINDS}
+        kind_of["twin"] = h["truth"]
+        for k in FILES:
+            text = build_file(kind_of[k], h["init"][k], ctx)
             if text is not None:
                 with open(paths[k], "w") as f:
                     f.write(text)
-        init_obs = {k: observe(paths[k], k, ctx) for k in KINDS}
+        init_obs = {k: observe(paths[k], kind_of[k], ctx) for k in FILES}
         events, concrete = [], []
         cur_truth_state = dict(h["init"][h["truth"]])
         for step in h["steps"]:
-            before = {k: _digest(paths[k]) for k in KINDS}
+            before = {k: _digest(paths[k]) for k in FILES}
             if step == "edit":
                 other = "v2" if observe(paths[h["truth"]], h["truth"], ctx)["d"] == "v1" else "v1"
                 edit_truth(root, h["truth"], ctx, other, cur_truth_state)
                 cur_truth_state["d"] = other
-                events.append({"a": "edit", "post": {k: observe(paths[k], k, ctx) for k in KINDS}})
+                events.append({"a": "edit", "post": {k: observe(paths[k], kind_of[k], ctx) for k in FILES}})
                 concrete.append({"a": "edit", "to": other})
                 continue
             fault = None
             if isinstance(step, (list, tuple)) and step[0] == "fault":
                 fault = tuple(step[1:])
-            res = run_sync(root, h["truth"], h["given"], ctx, fault=fault, via_cli=(step == "sync_cli"), spell=h.get("spell", "plain"))
-            after = {k: _digest(paths[k]) for k in KINDS}
+            res = run_sync(root, h["truth"], h["given"], ctx, fault=fault, via_cli=(step == "sync_cli"), spell=h.get("spell", "plain"), twin=twin)
+            after = {k: _digest(paths[k]) for k in FILES}
             ev = {"a": "sync", "exc": res["exc"], "fault": ("none" if not fault else ":".join(map(str, fault))),
-                  "post": {k: observe(paths[k], k, ctx) for k in KINDS},
-                  "changed": {k: before[k] != after[k] for k in KINDS}, "report": res["report"], "printed": res["printed"]}
+                  "post": {k: observe(paths[k], kind_of[k], ctx) for k in FILES},
+                  "changed": {k: before[k] != after[k] for k in FILES}, "report": res["report"], "printed": res["printed"]}
             if step == "sync_cli":
                 # the CLI prints nothing for created / appended files and returns no report: judge by bytes only
-                ev["report"] = {k: ("true" if ev["changed"][k] else "false") for k in KINDS}
+                ev["report"] = {k: ("true" if ev["changed"][k] else "false") for k in FILES}
             events.append(ev)
             files = {}
-            for k in KINDS:
+            for k in FILES:
                 if os.path.exists(paths[k]):
                     with open(paths[k], errors="replace") as f:
                         files[k] = f.read()
@@ -525,6 +538,10 @@ def histories(prop, thorough, rnd):
         h["id"] = "h%d" % i
         # how the files are named on the command line (Sync.tla: spell): plain, through a symbolic link, relative
         h["spell"] = {1: "link", 3: "rel"}.get(i % 5, "plain")
+        if i % 4 == 2:
+            # a second file of the truth's kind is named too (Sync.tla: Twin): an ordinary target
+            h["init"] = dict(h["init"], twin=rnd.choice(pre_states(h["truth"], h["ctx"], rnd, False)))
+            h["given"] = list(h["given"]) + ["twin"]
     return hs
 
 
@@ -573,7 +590,10 @@ def feat_of(trace, hist, step, clause, kind):
     f = {"k": "sync", "cl": clause, "truth": trace["truth"], "ngiven": len(trace["given"]), "ctx": ctx, "target": kind,
          "fault": e.get("fault", "none").split(":")[0] if e.get("fault", "none") != "none" else "none",
          "exc": e.get("exc", "none"), "step": step, "via": hist["steps"][step - 1] if isinstance(hist["steps"][step - 1], str) else "fault", "comps": []}
-    if kind in KINDS:
+    f["twin"] = kind == "twin"
+    if kind == "twin":
+        f["target"] = trace["truth"]          # a second file of the truth's kind: judged like any target of that kind
+    if kind in KINDS or kind == "twin":
         b, a = cur[kind], e["post"][kind]
         f.update(pre=b["st"] if b["st"] != "mod" else ("mod-" + ("absent" if b["d"] == "absent" else ("agree" if b["d"] == cur[trace["truth"]]["d"] else "stale"))),
                  post_st=a["st"], post_d=("agree" if a["d"] == cur[trace["truth"]]["d"] else a["d"]),
@@ -600,6 +620,8 @@ def run(prop, propose=False, replay=None):
     mcs = []
     if not replay:
         mcs.append(tlc.model_check("Sync.tla", "Sync_intended3.cfg" if thorough else "Sync_intended.cfg"))
+        if thorough or prop == "C09":
+            mcs.append(tlc.model_check("Sync.tla", "Sync_twin.cfg"))
     if replay:
         with open(replay) as f:
             hs = [json.load(f)["history"]]
